@@ -81,12 +81,12 @@ def ops_case(draw, tier='quick'):
     nops = draw(st.integers(0, maxops))
     ops = []
     for _ in range(nops):
-        op = draw(st.sampled_from(['add', 'sub', 'neg', 'mul', 'rmul', 'div', 'T', 'matvec', 'matmat', 'submatrix', 'export_dense',
+        op = draw(st.sampled_from(['add', 'sub', 'neg', 'mul', 'rmul', 'div', 'T', 'matvec', 'matmat', 'mat3d', 'submatrix', 'export_dense',
                                    'export_csr', 'export_coo', 'rowsupp', 'diagonal', 'pickle', 'meta', 'submatrix']))
         o = dict(op=op, a=draw(st.integers(0, 7)), b=draw(st.integers(0, 7)))
         if op in ('mul', 'rmul', 'div'):
             o['s'] = draw(st.sampled_from([2.0, -1.0, 0.5, 3, -2, 0.0] if op != 'div' else [2.0, -1.0, 0.5, 4, -2]))
-        if op in ('matvec', 'matmat'):
+        if op in ('matvec', 'matmat', 'mat3d'):
             o['x'] = [draw(st.sampled_from(VALS)) for _ in range(6 * 3)]
             o['k'] = draw(st.integers(0, 3))
         if op == 'submatrix':
@@ -215,14 +215,17 @@ def check_ops(case, rec):
                         R, r = A / o['s'], a / o['s']
                     elif op == 'T':
                         R, r = A.T, a.T.copy()
-                    elif op in ('matvec', 'matmat'):
+                    elif op in ('matvec', 'matmat', 'mat3d'):
                         n = a.shape[1]
                         if op == 'matvec':
                             x = numpy.array(o['x'][:n], dtype=float)
+                        elif op == 'mat3d':
+                            # an operand with further axes: the product contracts the first axis (also when another axis has the same length)
+                            x = numpy.resize(numpy.array(o['x'], dtype=float), (n, n if o['k'] % 2 else max(o['k'], 1), 2))
                         else:
                             x = numpy.array(o['x'][:n * o['k']], dtype=float).reshape(n, o['k'])
                         y = A @ x
-                        want = a @ x
+                        want = numpy.tensordot(a, x, 1)
                         if not _close(y, want):
                             raise Violation('matmul', f'{where}: {numpy.asarray(y).tolist()} != {want.tolist()}', where=op)
                         continue
